@@ -1,11 +1,20 @@
 use crate::fw::Prop;
+use crate::util::Rng;
 
 pub mod c09;
+pub mod c10;
 
 pub fn all() -> Vec<&'static dyn Prop> {
-    vec![&c09::C09]
+    vec![&c09::C09, &c10::C10]
 }
 
 pub fn find(id: &str) -> Option<&'static dyn Prop> {
     all().into_iter().find(|p| p.id() == id)
+}
+
+// A program text drawn from the shared pool (corpus for now; generators are added to it as they
+// come into existence).
+pub fn program_pool(r: &mut Rng) -> String {
+    let c = crate::corpus::all();
+    c[r.usize(c.len())].clone()
 }
